@@ -58,6 +58,10 @@ class immutable_vector {
     void load(std::ifstream& ifs) {
         clear();
         ifs.read(reinterpret_cast<char*>(&m_size), sizeof(m_size));
+        if (ifs.fail()) {
+            m_size = 0;  // a short read leaves nothing loaded; the caller reports the failure
+            return;
+        }
         if (m_size != 0) {
             m_allocator = std::make_unique<T[]>(m_size);
             ifs.read(reinterpret_cast<char*>(m_allocator.get()), sizeof(T) * m_size);
